@@ -14,3 +14,12 @@ package cnf
 //@   ensures c != nil && c.shareholders != nil ==> result == ((forall y V :: idsIn(ids, y) ==> sin(sset(c.shareholders), y)) && forall k int :: 0 <= k && k < len(c.maximalUnqualifiedSets) ==> !(forall y V :: idsIn(ids, y) ==> sin(sset(c.maximalUnqualifiedSets[k]), y)))
 //@   loop range(c.maximalUnqualifiedSets)
 //@     invariant forall k int :: 0 <= k && k < $i ==> !(forall y V :: sin(sset(idSet), y) ==> sin(sset(c.maximalUnqualifiedSets[k]), y))
+
+// Canonical order of maximal unqualified sets: defined for identifier sets of ANY size and ANY identifier values
+// (no 64-bit mask is built): no index is out of range, nothing panics, and a set compares equal to itself.
+//@ func compareIDSets
+//@   property C02, C04
+//@   nopanic
+//@   ensures result == -1 || result == 0 || result == 1
+//@   loop for(i >= 0 && j >= 0)
+//@     invariant -1 <= i && i < len(la) && -1 <= j && j < len(lb)
